@@ -3,7 +3,7 @@
    [tree_okb]: counts >= 0 and inner nodes carry no waveform. *)
 From Coq Require Import ZArith QArith Bool List.
 Require Import QV.C06.Model QV.C06.Spec QV.C06.Proofs_props QV.C06.Gen_sfg QV.C06.Proofs_sfg
-  QV.C06.Model_vol QV.C06.Proofs_vol QV.C06.Proofs_vol_term QV.C06.Model_idx QV.C06.Proofs_idx.
+  QV.C06.Model_vol QV.C06.Proofs_vol QV.C06.Proofs_vol_term QV.C06.Proofs_vol_mc QV.C06.Model_idx QV.C06.Proofs_idx.
 (* [erase] unqualified is Model_idx.erase (forget the recorded index); Model_vol.erase forgets which counts are volatile *)
 Import ListNotations.
 Open Scope Z_scope.
@@ -282,3 +282,60 @@ Theorem C06_vol_conservative : forall f d t idx, any_volatile t = false ->
   /\ rmap Model_vol.erase (vsplit_one_child t idx) = split_one_child (Model_vol.erase t) idx.
 Proof. intros f d t idx H; split; [exact (vflatten_conservative f d t H) | exact (vsplit_conservative t idx H)]. Qed.
 Print Assumptions C06_vol_conservative.
+
+(* ------------------------------------------------------------------------------------------------------------------ *)
+(* make_compatible / roll_constant_waveforms on programs with volatile repetition counts (Model_vol.v, last section).
+   The second component of [vis_compatible_w] / [vmake_compatible_w] is "a VolatileModificationWarning was emitted". *)
+
+(* the compatibility level is decided from the current values only *)
+Theorem C06_vol_is_compatible_level : forall ml q sr t,
+  rmap fst (vis_compatible_w ml q sr t) = is_compatible ml q sr (Model_vol.erase t).
+Proof. exact vis_compatible_level. Qed.
+Print Assumptions C06_vol_is_compatible_level.
+
+Theorem C06_vol_make_compatible_refines : forall ml q sr t,
+  rmap (fun p => Model_vol.erase (fst p)) (vmake_compatible_w ml q sr t) = make_compatible ml q sr (Model_vol.erase t).
+Proof. exact vmake_compatible_refines. Qed.
+Print Assumptions C06_vol_make_compatible_refines.
+
+Theorem C06_vol_make_compatible_preserves_post : forall ml q sr t t' w, tree_ok1b (Model_vol.erase t) = true ->
+  vmake_compatible_w ml q sr t = Ok (t', w) ->
+  same_play (pieces (Model_vol.erase t')) (pieces (Model_vol.erase t)) /\
+  (duration (Model_vol.erase t') == duration (Model_vol.erase t))%Q /\
+  ((0 < q)%Z -> (0 < sr)%Q -> leaves_ok ml q sr (Model_vol.erase t') = true).
+Proof. exact vmake_compatible_preserves_post. Qed.
+Print Assumptions C06_vol_make_compatible_preserves_post.
+
+(* make_compatible never creates a volatile count *)
+Theorem C06_vol_make_compatible_count_le : forall ml q sr t t' w, vmake_compatible_w ml q sr t = Ok (t', w) ->
+  (vol_count t' <= vol_count t)%nat.
+Proof. exact vmake_compatible_count_le. Qed.
+Print Assumptions C06_vol_make_compatible_count_le.
+
+(* when it loses no volatile count, the rewritten program follows the volatile parameters exactly *)
+Theorem C06_vol_make_compatible_faithful : forall ml q sr t t' w env, vmake_compatible_w ml q sr t = Ok (t', w) ->
+  vol_count t' = vol_count t -> tree_ok1b (inst env t) = true ->
+  same_play (pieces (inst env t')) (pieces (inst env t)) /\ (duration (inst env t') == duration (inst env t))%Q.
+Proof. exact vmake_compatible_faithful. Qed.
+Print Assumptions C06_vol_make_compatible_faithful.
+
+(* "no VolatileModificationWarning => the program still follows its volatile parameters" does NOT hold: a volatile child
+   that is too short is merged away by the early return of _is_compatible, silently *)
+Theorem C06_vol_make_compatible_silent_freeze_refuted : exists t t' env,
+  vmake_compatible_w 16 4 1%Q t = Ok (t', false) /\ any_volatile t = true /\ any_volatile t' = false /\
+  consistent (fun _ => 2) t = true /\ tree_ok1b (inst env t) = true /\
+  ~ (duration (inst env t') == duration (inst env t))%Q.
+Proof. exact vmake_compatible_silent_freeze_refuted. Qed.
+Print Assumptions C06_vol_make_compatible_silent_freeze_refuted.
+
+(* roll_constant_waveforms decides from the waveform only and multiplies the repetition DEFINITION *)
+Theorem C06_vol_roll_refines_all : forall val mq q sr t, multiplicative val ->
+  rmap (instv val) (vroll_constant_waveforms mq q sr t) = roll_constant_waveforms mq q sr (instv val t).
+Proof. exact vroll_refines_all. Qed.
+Print Assumptions C06_vol_roll_refines_all.
+
+Theorem C06_vol_roll_preserves_all : forall val mq q sr t t', multiplicative val -> (0 < q)%Z -> (0 < sr)%Q ->
+  tree_ok1b (instv val t) = true -> vroll_constant_waveforms mq q sr t = Ok t' ->
+  same_play (pieces (instv val t')) (pieces (instv val t)) /\ (duration (instv val t') == duration (instv val t))%Q.
+Proof. exact vroll_preserves_all. Qed.
+Print Assumptions C06_vol_roll_preserves_all.
